@@ -7,7 +7,7 @@ from props import C25
 
 ID = "C26"
 QUICK_N = 1600
-THOROUGH_N = 15000
+THOROUGH_N = 12800
 SHARD = 120
 COQ_PRELUDE = "From MV Require Import Model.DnsNames Model.DnsMessage Model.DnsRef.\n"
 RULE = ("80% well-formed wire messages from the compressing DNS writer of props/C25.py (queries and responses; compressed owner "
